@@ -32,7 +32,7 @@ def pos(lo, hi):
 
 
 @st.composite
-def topologies(draw, max_ops=10, min_ops=0, want=None):
+def topologies(draw, max_ops=10, min_ops=0, want=None, log=None):
     """Growth grammar; returns (nodes, edges, origin_role, dest) with validity preserved by
     every operation.  want: optional set of op names that are tried first (bias)."""
     nodes, edges, origin, dest = [], [], {}, {}
@@ -42,6 +42,11 @@ def topologies(draw, max_ops=10, min_ops=0, want=None):
         nodes.append(nm)
         return nm
 
+    def note(op, **kw):
+        # growth log: which elements each operation created (used to stage a network in histories)
+        if log is not None:
+            log.append(dict(op=op, **kw))
+
     def seed():
         k = draw(st.integers(0, 3))
         if k <= 1:
@@ -49,12 +54,15 @@ def topologies(draw, max_ops=10, min_ops=0, want=None):
             edges.append((s, t))
             origin[s] = "src"
             dest[t] = True
+            note("seed", edges=[len(edges) - 1], origins=[s], dests=[t])
         elif k == 2:
             r = new()
             edges.append((r, r))
+            note("seed", edges=[len(edges) - 1], origins=[], dests=[])
         else:
             a, b = new(), new()
             edges.extend([(a, b), (b, a)])
+            note("seed", edges=[len(edges) - 2, len(edges) - 1], origins=[], dests=[])
 
     seed()
     nops = draw(st.integers(min_ops, max_ops))
@@ -87,6 +95,7 @@ def topologies(draw, max_ops=10, min_ops=0, want=None):
             m = new()
             edges[i] = (u, m)
             edges.append((m, v))
+            note("subdivide", edges=[len(edges) - 1], origins=[], dests=[])
         elif op == "seed":
             seed()
         elif op == "branch":
@@ -94,15 +103,20 @@ def topologies(draw, max_ops=10, min_ops=0, want=None):
             k = new()
             edges.append((u, k))
             dest[k] = True
+            note("branch", edges=[len(edges) - 1], origins=[], dests=[k])
         elif op == "source":
             v = draw(st.sampled_from(mids))
             s = new()
             edges.append((s, v))
             origin[s] = "src"
+            note("source", edges=[len(edges) - 1], origins=[s], dests=[])
         elif op == "link":
             edges.append(draw(st.sampled_from(pairs)))
+            note("link", edges=[len(edges) - 1], origins=[], dests=[])
         elif op == "ramp":
-            origin[draw(st.sampled_from(ramp_ok))] = "ramp"
+            n_ = draw(st.sampled_from(ramp_ok))
+            origin[n_] = "ramp"
+            note("ramp", edges=[], origins=[n_], dests=[])
     return nodes, edges, origin, dest
 
 
@@ -191,8 +205,9 @@ def specs(
     vsl_prob=4,
     origin_kinds=None,
     force_delta_phi=False,
+    growth_log=None,
 ):
-    nodes, edges, origin, dest = draw(topologies(max_ops=max_ops, min_ops=min_ops))
+    nodes, edges, origin, dest = draw(topologies(max_ops=max_ops, min_ops=min_ops, log=growth_log))
     shared = draw(st.integers(0, 2)) == 0
     common = draw(link_params(integer_a)) if shared else None
     links = []
